@@ -7,6 +7,7 @@ package main
 
 import (
 	"fmt"
+	"time"
 
 	sdkmath "cosmossdk.io/math"
 	sdk "github.com/cosmos/cosmos-sdk/types"
@@ -308,7 +309,7 @@ func runC05(c *vk.Ctx) {
 				}
 			}
 			if r.Intn(10) == 0 {
-				w.ch.NextBlock(5 * 1e9)
+				w.ch.NextBlock(time.Duration(5+r.Intn(40)) * time.Second)
 			}
 		}
 		if i < 2 {
